@@ -440,7 +440,7 @@ package mcp
 //@   loop 1 invariant[C12] len(tools) <= yielded(1)
 //@   ensures[C12 no-phantom-or-duplicate-entry] len(result) <= atlock(len(m.tools))
 //@ func toolManager.unregisterTools
-//@   waive slice-bounds:m.toolsOrder
+//@   waive toolsOrder
 //@   ensures[C12 one-critical-section] lockops <= old(lockops) + 1
 //@   loop 1 invariant[C12] 0 <= unregisteredCount && unregisteredCount <= rangeindex + 1 && rangeindex < len(names)
 //@   ensures[C12 count-bounded-by-names] 0 <= result && result <= len(names)
